@@ -147,6 +147,14 @@ def _install(model, subscribe, published):
             if g is None:
                 if event.event_type == StatEvents.INITIALIZED_EVENT and event.content is not self.stat:
                     published["bad"].append([self.key, "INITIALIZED_EVENT", "payload is not the statistic"])
+                elif event.event_type == StatEvents.INITIALIZED_EVENT:
+                    # the statistic says it has been reset (warm-up): at this moment it reports no observations
+                    try:
+                        n_now = self.stat.n()
+                    except Exception as e:
+                        n_now = type(e).__name__
+                    if n_now != 0:
+                        published["bad"].append([self.key, "INITIALIZED_EVENT", "published before the reset, n()", n_now])
                 return
             if not hasattr(self.stat, g[0]):
                 published["bad"].append([self.key, event.event_type.name, "no such getter"])
@@ -191,11 +199,12 @@ def _install(model, subscribe, published):
         # two servers), fed the same observations: it reports what the first one reports
         # (they are wired through the constructor arguments instead of listen_to)
         m.twins = {
-            "c": SimCounter("cnt-b", "counter", sim, producer=m.prod["c"], event_type=StatEvents.DATA_EVENT),
+            # (two of them carry as descriptive name what is the KEY of another statistic of the model)
+            "c": SimCounter("cnt-b", "per", sim, producer=m.prod["c"], event_type=StatEvents.DATA_EVENT),
             "t": SimTally("tal-b", "tally", sim, producer=m.prod["t"], event_type=_custom_type()),
             "w": SimWeightedTally("wt-b", "weighted", sim, producer=m.prod["w"],
                                   event_type=StatEvents.WEIGHT_DATA_EVENT),
-            "p": SimPersistent("per-b", "persistent", sim, producer=m.prod["p"],
+            "p": SimPersistent("per-b", "cnt", sim, producer=m.prod["p"],
                                event_type=StatEvents.TIMESTAMP_DATA_EVENT),
         }
         m.twins["c"].listen_to(m.prod["c"], _custom_type())
